@@ -39,6 +39,7 @@ static std::string oracle(const Case& c) {
     unsigned coin = (unsigned)c.u("coin") & 2047u; model::Seed ms = g::seed_showing(shown, coin);
     lib::SeedPtr s; if (lib::load_model(ms, s.out()) != 0) { s.p = nullptr; ev.count("discard:load-construct-failed"); return ""; }
     size_t ret = 0; std::string out = lib::encode(s, le->lang, coin, &ret);
+    { k.fail_all = true; size_t r2 = 0; std::string o2 = lib::encode(s, le->lang, coin, &r2); k.fail_all = false; if (o2 != out || r2 != ret) return "with an exhausted allocator encode returns " + std::to_string(r2) + " and an output of length " + std::to_string(o2.size()) + " instead of " + std::to_string(ret) + "/" + std::to_string(out.size()); }
     auto t = lib::tokens(out); size_t enc_internal = 15 * b.sep_out, dec_internal = model::nfkd(out).size(); for (auto& x : t) enc_internal += x.size();
     std::string lens = " (encode-internal " + std::to_string(enc_internal) + ", output " + std::to_string(out.size()) + ", decode-internal " + std::to_string(dec_internal) + ", POLYSEED_STR_SIZE " + std::to_string(POLYSEED_STR_SIZE) + ")";
     if (out.size() >= POLYSEED_STR_SIZE) return "the composed phrase is not strictly shorter than the buffer" + lens;
